@@ -41,7 +41,7 @@ Visible(exec, a) ==
       [] exec = "genc" -> a.a \in {"deq", "log", "raise", "send"}
       \* the interpreter with its DEFAULT components (no recording queues installed)
       [] exec = "default" -> a.a \notin {"deq", "raise", "send"}
-      [] exec = "pml"  -> a.a \in {"deq", "log", "exit", "enter", "take"}
+      [] exec = "pml"  -> a.a \in {"deq", "log", "exit", "enter"}
       [] OTHER -> TRUE
 
 Project(exec, atoms) == SelectSeq(atoms, LAMBDA a : Visible(exec, a))
@@ -98,7 +98,8 @@ Coarse == case.exec \in {"genc"}
 
 TStep ==
     /\ Line.k = "call" /\ Line.op = "step" /\ ~skip
-    /\ LET r0   == IF Coarse THEN StepUntilEffective(C, Cur, <<>>, 60) ELSE StepResult
+    /\ LET r0   == IF case.exec = "pml" THEN StepUntilQuiescent(C, Cur, <<>>, 120)
+                   ELSE IF Coarse THEN StepUntilEffective(C, Cur, <<>>, 60) ELSE StepResult
            r    == IF Coarse THEN [r0 EXCEPT !.ret = GencRet(@)] ELSE r0
            exp  == Project(case.exec, r.m.atoms)
            got  == Project(case.exec, Line.atoms)
@@ -107,10 +108,16 @@ TStep ==
            lcfg == LoggedCfgIdx(C, Line.cfg)
            settled == r.ret # "INITIALIZED"
            badLegal == settled /\ r.life \in {"running", "finished"}
+                          /\ (case.exec = "pml" => Line.ret = "IDLE")
                           /\ ~LegalConfiguration(C, lcfg)
-           badAtoms == exp # got
-           badCfg   == settled /\ ecfg # gcfg
-           badRet   == r.ret # Line.ret
+           \* a run that spin cut off (depth limit) is compared on the common prefix
+           cut  == case.exec = "pml" /\ Line.ret = "LIMIT"
+           n    == IF Len(exp) < Len(got) THEN Len(exp) ELSE Len(got)
+           badAtoms == IF cut THEN (r.ret # "LIMIT" /\ Len(got) > Len(exp)) \/ SubSeq(exp, 1, n) # SubSeq(got, 1, n)
+                       ELSE exp # got
+           \* the Promela model prints its configuration at the start of a step only
+           badCfg   == settled /\ (case.exec = "pml" => Line.ret = "IDLE") /\ ecfg # gcfg
+           badRet   == ~cut /\ r.ret # Line.ret
        IN  /\ Apply(r)
            /\ Count(StepName)
            /\ IF badLegal \/ badAtoms \/ badCfg \/ badRet
